@@ -96,9 +96,13 @@ struct Run {
 		}
 		if (!pa.isnar()) {
 			long double v = (long double)pa;   // only to decide whether the cast below is defined behaviour
-			if (v > -2147483648.0L && v < 2147483648.0L) std::printf("posit %u %u toi i32 %llx => %llx\n", nbits, es, (unsigned long long)a, (unsigned long long)(long long)int(pa));
+			// the library computes int(to_double()): when the posit has more than 52 fraction bits the double may round to
+			// +-2^31 / 2^32 although the value fits, and the cast is then undefined behaviour (part of finding D23): such
+			// operands are not executed
+			const double dv = (double)v;
+			if (v > -2147483648.0L && v < 2147483648.0L && dv > -2147483649.0 && dv < 2147483648.0) std::printf("posit %u %u toi i32 %llx => %llx\n", nbits, es, (unsigned long long)a, (unsigned long long)(long long)int(pa));
 			if (v > -9.0e18L && v < 9.0e18L) std::printf("posit %u %u toi i64 %llx => %llx\n", nbits, es, (unsigned long long)a, (unsigned long long)(long long)(pa));
-			if (v > -1.0L && v < 4294967296.0L) std::printf("posit %u %u toi u32 %llx => %llx\n", nbits, es, (unsigned long long)a, (unsigned long long)(unsigned int)(pa));
+			if (v > -1.0L && v < 4294967296.0L && dv > -1.0 && dv < 4294967296.0) std::printf("posit %u %u toi u32 %llx => %llx\n", nbits, es, (unsigned long long)a, (unsigned long long)(unsigned int)(pa));
 			if (v > -1.0L && v < 1.8e19L) std::printf("posit %u %u toi u64 %llx => %llx\n", nbits, es, (unsigned long long)a, (unsigned long long)(unsigned long long)(pa));
 		}
 	}
